@@ -215,8 +215,11 @@ def run(R):
     with R.guard('C09.R4'):
         b = tonic.body(re.compile(r'grpc_timeout::GrpcTimeout<S> as .*>::call$'))
         R.saw(b)
-        mbb, mt = b.call1(pat='Option', name='map')
-        R.check(any('k' in a and a['k'].get('fn', '').endswith('tokio::time::sleep') for a in mt['args']), 'C09.R4', 'sleep-from-duration', site(b, mbb), 'sleep = timeout.map(tokio::time::sleep)')
+        maps = [(bb_, t_) for bb_, t_ in b.calls(pat='Option', name='map') if any('k' in a and a['k'].get('fn', '').endswith('tokio::time::sleep') for a in t_['args'])]
+        if len(maps) != 1:
+            raise CheckError('UNRECOGNISED: %d sites of timeout.map(tokio::time::sleep) in GrpcTimeout::call' % len(maps))
+        mbb, mt = maps[0]
+        R.ok('C09.R4', 'sleep-from-duration', site(b, mbb), 'sleep = timeout.map(tokio::time::sleep)')
         tl = mirlib.root_local(b, mt['args'][0])
         eff = writers_of(b, tl)
         rows = decision_rows(b, 0, eff)
